@@ -16,6 +16,7 @@
 //!   MEM <r> { base size }*r                          region j is filled with the word 0x70000100+16*j (64-bit CPUs)
 //!                                                   or with the byte 0x70+j (32-bit CPUs: any alignment reads 0x7j7j7j7j)
 //!   LK <q> { enum value }*q                          (only read by the model)
+//! or `H <hex> <the same description>`: the dump's bytes as written by the plugin (model: C02 reader model + C14; here: Minidump::read)
 //! answer:
 //!   T=<id>:<name|->:<info>:<ip|->:<sp|->:<frames>:<f1 instr|->:<unl>,...;R=<idx|->;X=<addr>:<family>:<payload+>|-;
 //!   P=<pid|->;C=<ctime|->;TM=<time>;M=<base:size,...>;U=<base:size:name,...>#<reason string>
@@ -601,7 +602,26 @@ pub fn render(state: &minidump_processor::ProcessState) -> String {
     )
 }
 
+/// `H <hex> ...`: the bytes of a whole dump written by the plugin's own writer (props/c14.py), not by minidump-synth; the rest of
+/// the line is the generator's description (read by the oracle only).  "NONE" = Minidump::read or process_minidump fails.
+fn run_hex(hex: &str) -> String {
+    let bytes: Vec<u8> = (0..hex.len() / 2).map(|i| u8::from_str_radix(&hex[2 * i..2 * i + 2], 16).expect("dump hex")).collect();
+    let md = match Minidump::read(bytes) {
+        Ok(m) => m,
+        Err(_) => return "NONE".into(),
+    };
+    let rt = tokio::runtime::Builder::new_current_thread().build().unwrap();
+    let provider = minidump_unwind::Symbolizer::new(minidump_unwind::string_symbol_supplier(Default::default()));
+    match rt.block_on(minidump_processor::process_minidump(&md, &provider)) {
+        Ok(state) => render(&state),
+        Err(_) => "NONE".into(),
+    }
+}
+
 fn run(line: &str) -> String {
+    if let Some(rest) = line.strip_prefix("H ") {
+        return run_hex(rest.split_whitespace().next().unwrap_or(""));
+    }
     let mut t = Toks::new(line);
     let c = parse_case(&mut t);
     let bytes = build_dump(&c);
